@@ -6,6 +6,7 @@ pub mod core;
 pub mod engine;
 pub mod gen;
 pub mod graphcase;
+pub mod huge;
 pub mod oracle;
 pub mod xmlgen;
 pub mod model;
